@@ -806,6 +806,9 @@ func (ev *Eval) call(x *ECall) SV {
 				as = append(as, v.T)
 			}
 			c.Decl("uf:"+sf.Name, fmt.Sprintf("(declare-fun uf_%s (%s) %s)", sf.Name, strings.Join(sorts, " "), rt.Sort))
+			if len(as) == 0 {
+				return SV{T: T{"uf_" + sf.Name, rt.Sort}, Ty: rt}
+			}
 			return SV{T: App("uf_"+sf.Name, rt.Sort, as...), Ty: rt}
 		}
 		if sf.Opaque {
